@@ -533,6 +533,31 @@ func (h *tbHist) playHand1() bool {
 	// the gate as it stands while the hand runs (nobody touches it until the continue step): an open attempt during the
 	// hand may have left it set up under the very count the continue step will use
 	gateBefore := h.rig.gateObs()
+	settledPre := h.rig.settledDone.Load()
+	// now and then somebody reacts to the settlement notification at once: a player busted by this hand is re-bought from
+	// inside the GameSettled callback, i.e. between settleGame and the continue step
+	type cbRebuy struct {
+		id    int
+		chips int64
+		err   error
+	}
+	var cbMu sync.Mutex
+	cbOps := []cbRebuy{}
+	if h.r.Intn(3) == 0 {
+		chips := int64(100 + h.r.Intn(500))
+		h.rig.setOnSettled(func(t *pokertable.Table) {
+			for _, p := range t.State.PlayerStates {
+				if p.IsParticipated && p.Bankroll == 0 {
+					err := h.rig.te.PlayerReserve(pokertable.JoinPlayer{PlayerID: p.PlayerID, RedeemChips: chips, Seat: -1})
+					cbMu.Lock()
+					cbOps = append(cbOps, cbRebuy{idNum(p.PlayerID), chips, err})
+					cbMu.Unlock()
+					return
+				}
+			}
+		})
+		defer h.rig.setOnSettled(nil)
+	}
 	for _, k := range h.r.Perm(len(ids)) {
 		err := h.rig.te.PlayerReady(pid(ids[k]))
 		if err != nil {
@@ -568,6 +593,16 @@ func (h *tbHist) playHand1() bool {
 	h.line("tb settle res=%s | ok", strings.Join(res, ","))
 	h.rec("settle", nil)
 	h.line("tb obs %s sm=? gate=? rel=?", tableObs(settled))
+	// the settlement notification follows the settled snapshot: let its listener finish before looking at what it did
+	waitFor(time.Second, func() bool { return h.rig.settledDone.Load() > settledPre })
+	h.rig.setOnSettled(nil)
+	cbMu.Lock()
+	for _, o := range cbOps {
+		h.line("tb reserve id=%d chips=%d seat=-1 ch=- | %s", o.id, o.chips, tbErrName(o.err))
+		h.rec("reserve", o.err)
+		h.st.OpMix["re-buy-from-inside-the-settlement-notification"]++
+	}
+	cbMu.Unlock()
 	if h.interval > 0 && h.r.Intn(2) == 0 {
 		// in the window between settlement and the delayed continue handler: the level changes (a break begins or ends,
 		// or another level) — the handler decides on the level in force when it runs
